@@ -30,6 +30,8 @@ type Res struct {
 	Err   string `json:"err,omitempty"`
 }
 type Case struct {
+	// NS: which pair of node addresses the case uses (nodeStyles): the local controller's own address and a foreign one
+	NS   int   `json:"ns,omitempty"`
 	Refs []Ref `json:"refs"`
 	Ops  []Op  `json:"ops"`
 	Impl []Res `json:"impl"`
@@ -66,6 +68,19 @@ func (s *stub) Terminate(source *prc.ProcessId) {
 const localNode = "127.0.0.1:7001"
 const otherNode = "10.9.9.9:7002"
 
+// An address is the PAIR (node, local address): the foreign node of a case differs from the controller's own node in host
+// and port, in the host only (the controller listening on an unspecified or empty host, as the repository's own examples
+// do), or in the port only, also where one string extends the other
+var nodeStyles = [][2]string{
+	{localNode, otherNode},
+	{":7001", "10.9.9.9:7001"},
+	{"0.0.0.0:7001", "10.9.9.9:7001"},
+	{"[::]:7001", "[::1]:7001"},
+	{"127.0.0.1:7001", "127.0.0.1:70012"},
+	{"localhost:7001", "127.0.0.1:7001"},
+	{"", "10.9.9.9:7001"},
+}
+
 // The model knows addresses as abstract, pairwise different identifiers; here they are strings that differ as little as
 // different logical addresses can: a trailing slash, a doubled slash (the registry must keep them apart in EVERY
 // operation — a key normalised in Register and GetProcess but not in Unregister makes two of them one)
@@ -82,13 +97,13 @@ func runImpl(c *Case) {
 	rec := &recorder{}
 	dead := &stub{id: -1, sticky: true, rec: rec}
 	rc := prc.NewResourceController(prc.FunctionalResourceControllerConfigurator(func(cfg *prc.ResourceControllerConfiguration) {
-		cfg.WithPhysicalAddress(localNode).WithNotFoundSubstitute(dead)
+		cfg.WithPhysicalAddress(nodeStyles[c.NS%len(nodeStyles)][0]).WithNotFoundSubstitute(dead)
 	}))
 	refs := make([]*prc.ProcessId, len(c.Refs))
 	for i, r := range c.Refs {
-		node := localNode
+		node := nodeStyles[c.NS%len(nodeStyles)][0]
 		if r.F {
-			node = otherNode
+			node = nodeStyles[c.NS%len(nodeStyles)][1]
 		}
 		refs[i] = prc.NewProcessId(node, addrName(r.A))
 	}
@@ -353,8 +368,13 @@ func corpus() []Case {
 func genCase(rng *vh.RNG, stickyStream bool) Case {
 	var c Case
 	nr := rng.Range(2, 7)
+	fch := 14
+	if rng.Chance(1, 3) {
+		c.NS = rng.Intn(len(nodeStyles))
+		fch = 4 // a case about node addresses has more foreign references
+	}
 	for i := 0; i < nr; i++ {
-		c.Refs = append(c.Refs, Ref{A: rng.Intn(3), F: rng.Chance(1, 14)})
+		c.Refs = append(c.Refs, Ref{A: rng.Intn(3), F: rng.Chance(1, fch)})
 	}
 	if rng.Chance(1, 2) { // concentrate on one address: more reuse
 		for i := range c.Refs {
